@@ -3,10 +3,14 @@
 // own tcpPlayerConn (GetNextMessage framing), SessionsImpl + ClientSessions drained
 // by sche.Handler.  One op = one whole connection:
 //
-//	reset-tcp pk=<pk,pk,..> tail=<hex>
+//	reset-tcp pk=<pk,pk,..> tail=<hex> [lens=<body length of every packet> cut=<byte offsets>]
 //
 // the client writes the packets, then the raw tail bytes, then half-closes and
-// reads until the server closes.  Observation (after everything settled):
+// reads until the server closes.  `cut`: the byte stream does not arrive in one
+// piece: the client pauses at each of these offsets of the stream (TCP segmentation:
+// a header split from its body, a body in two halves, two packets glued together);
+// `b<mid>` is a data packet with a body larger than the socket buffers.  `lens` (the
+// body lengths as encoded) lets the model frame the same stream byte for byte.  Observation (after everything settled):
 //
 //	ev=<A M.. R>,ow=<a m.. r11>,eof=<client saw the server close>,g=<goroutines left>
 package c05
@@ -17,6 +21,8 @@ import (
 	"io"
 	"net"
 	"runtime"
+	"sort"
+	"strconv"
 	"strings"
 	"sync"
 	"sync/atomic"
@@ -29,6 +35,7 @@ import (
 	"github.com/dfklegend/cell2/node/client/impls/pomelo"
 	cs "github.com/dfklegend/cell2/node/client/session"
 	"github.com/dfklegend/cell2/node/service"
+	"github.com/dfklegend/cell2/pomelonet/common/conn/codec"
 	"github.com/dfklegend/cell2/pomelonet/common/conn/message"
 	pi "github.com/dfklegend/cell2/pomelonet/interfaces"
 	"github.com/dfklegend/cell2/pomelonet/server/acceptor"
@@ -108,7 +115,10 @@ func (e *tcpEnv) OnSessionRemove(fs *cs.FrontSession) {
 	e.mu.Unlock()
 }
 
-func newTCPEnv() *tcpEnv {
+func newTCPEnv() *tcpEnv { return newAccEnv(acceptor.NewTCPAcceptor("127.0.0.1:0")) }
+
+// newAccEnv: the real SessionsImpl + ClientSessions drained by sche.Handler behind the given real acceptor
+func newAccEnv(a acceptor.Acceptor) *tcpEnv {
 	e := &tcpEnv{ev: map[pi.IClientSession][]string{}, ow: map[pi.IClientSession][]string{}}
 	sc := sche.NewSche()
 	css := impls.NewClientSessions("gate-tcp")
@@ -128,7 +138,6 @@ func newTCPEnv() *tcpEnv {
 	go sc.Handler()
 	cfg := session.NewSessionConfig(nil)
 	cfg.Impl = e
-	a := acceptor.NewTCPAcceptor("127.0.0.1:0")
 	pomelo.StartAcceptor(a, cfg)
 	for i := 0; i < 500 && a.GetAddr() == ""; i++ {
 		time.Sleep(2 * time.Millisecond)
@@ -145,6 +154,7 @@ func (e *tcpEnv) exec(op string) string {
 		return "bad-op"
 	}
 	var data []byte
+	var lens []string
 	if v, _ := hx.KV(ws, "pk"); v != "" {
 		for _, w := range strings.Split(v, ",") {
 			b, ok := encPkt(w)
@@ -152,7 +162,11 @@ func (e *tcpEnv) exec(op string) string {
 				return "bad-op"
 			}
 			data = append(data, b...)
+			lens = append(lens, strconv.Itoa(len(b)-codec.HeadLength))
 		}
+	}
+	if v, has := hx.KV(ws, "lens"); has && v != strings.Join(lens, ",") {
+		return "bad-op" // the model would frame another stream
 	}
 	tailHex, _ := hx.KV(ws, "tail")
 	tail, err := hex.DecodeString(tailHex)
@@ -160,15 +174,47 @@ func (e *tcpEnv) exec(op string) string {
 		return "bad-op"
 	}
 	data = append(data, tail...)
+	var cuts []int
+	if v, _ := hx.KV(ws, "cut"); v != "" {
+		prev := 0
+		for _, w := range strings.Split(v, ",") {
+			n, err := strconv.Atoi(w)
+			if err != nil || n <= prev || n >= len(data) {
+				return "bad-op"
+			}
+			cuts = append(cuts, n)
+			prev = n
+		}
+	}
+	return e.runConn(func() (net.Conn, error) { return net.Dial("tcp", e.addr) }, func(conn net.Conn) { e.sendCut(conn, data, cuts) })
+}
+
+// sendCut: the client's byte stream, with a pause at every cut
+func (e *tcpEnv) sendCut(conn net.Conn, data []byte, cuts []int) {
+	// the stream leaves in pieces: what was written before a pause has reached the server before the rest is sent
+	if tc, ok := conn.(*net.TCPConn); ok && len(cuts) > 0 {
+		tc.SetNoDelay(true)
+	}
+	at := 0
+	for _, n := range cuts {
+		conn.Write(data[at:n])
+		at = n
+		time.Sleep(tcpPause)
+	}
+	conn.Write(data[at:])
+}
+
+// runConn: one whole client connection: dial, send, half-close, read until the server closes; the observation
+func (e *tcpEnv) runConn(dial func() (net.Conn, error), send func(net.Conn)) string {
 	e.mu.Lock()
 	e.last = nil
 	e.mu.Unlock()
 	base := runtime.NumGoroutine()
-	conn, err := net.Dial("tcp", e.addr)
+	conn, err := dial()
 	if err != nil {
 		return "dial-failed"
 	}
-	conn.Write(data)
+	send(conn)
 	if tc, ok := conn.(*net.TCPConn); ok {
 		tc.CloseWrite()
 	}
@@ -210,6 +256,9 @@ func (e *tcpEnv) exec(op string) string {
 	return fmt.Sprintf("ev=%s,ow=%s,eof=%d,g=%d", ev, ow, eof, g)
 }
 
+// pause of the client at a cut of its byte stream
+var tcpPause = 4 * time.Millisecond
+
 // how often the end of a connection is polled for (2 ms apart)
 var tcpPolls = 5000
 
@@ -223,6 +272,7 @@ func genTCP(x *hx.T, i int) string {
 	var ps []string
 	n := 0
 	mid := func() int { n++; return 1000 + n }
+	big := false
 	switch R.Intn(8) {
 	case 0: // nothing or garbage only
 	case 1:
@@ -239,6 +289,14 @@ func genTCP(x *hx.T, i int) string {
 				ps = append(ps, "ot")
 			case 2:
 				ps = append(ps, fmt.Sprintf("x%d", mid()))
+			case 3:
+				if !big {
+					// one message larger than the socket buffers
+					big = true
+					ps = append(ps, fmt.Sprintf("b%d", mid()))
+					break
+				}
+				fallthrough
 			default:
 				ps = append(ps, fmt.Sprintf("d%d", mid()))
 			}
@@ -247,7 +305,58 @@ func genTCP(x *hx.T, i int) string {
 	if R.Intn(10) == 0 {
 		ps = append([]string{fmt.Sprintf("d%d", mid())}, ps...) // data before the handshake
 	}
-	return fmt.Sprintf("reset-tcp pk=%s tail=%s", strings.Join(ps, ","), tcpTails[R.Intn(len(tcpTails))])
+	tail := tcpTails[R.Intn(len(tcpTails))]
+	// the byte stream as the client sends it: packet boundaries, body lengths
+	var lens []string
+	var bounds []int // offsets of the packet starts and of the end of the last packet
+	total := 0
+	for _, w := range ps {
+		b, _ := encPkt(w)
+		bounds = append(bounds, total)
+		lens = append(lens, strconv.Itoa(len(b)-codec.HeadLength))
+		total += len(b)
+	}
+	bounds = append(bounds, total)
+	total += len(tail) / 2
+	op := fmt.Sprintf("reset-tcp pk=%s tail=%s lens=%s", strings.Join(ps, ","), tail, strings.Join(lens, ","))
+	// 2 of 3 connections: the stream arrives in 2-4 pieces, cut inside a header, between header and body, inside a body,
+	// at a packet boundary or anywhere
+	if total > 1 && R.Intn(3) != 0 {
+		set := map[int]bool{}
+		for j, m := 0, 1+R.Intn(3); j < m; j++ {
+			c := 1 + R.Intn(total-1)
+			if len(ps) > 0 {
+				i := R.Intn(len(ps))
+				body := bounds[i+1] - bounds[i] - codec.HeadLength
+				switch R.Intn(5) {
+				case 0:
+					c = bounds[i] + 1 + R.Intn(codec.HeadLength-1) // inside the header
+				case 1:
+					c = bounds[i] + codec.HeadLength // header | body
+				case 2, 3:
+					if body > 1 {
+						c = bounds[i] + codec.HeadLength + 1 + R.Intn(body-1) // inside the body
+					}
+				}
+			}
+			if c > 0 && c < total {
+				set[c] = true
+			}
+		}
+		var cs []int
+		for c := range set {
+			cs = append(cs, c)
+		}
+		sort.Ints(cs)
+		var ss []string
+		for _, c := range cs {
+			ss = append(ss, strconv.Itoa(c))
+		}
+		if len(ss) > 0 {
+			op += " cut=" + strings.Join(ss, ",")
+		}
+	}
+	return op
 }
 
 // ---------------------------------------------------------------- accept burst
@@ -371,10 +480,10 @@ func execBurst(op string) string {
 
 func isTCPReplay(ops []string) bool {
 	for _, op := range ops {
-		if strings.HasPrefix(op, "reset-burst") || strings.HasPrefix(op, "reset-accept") || strings.HasPrefix(op, "reset-ws") {
+		if strings.HasPrefix(op, "reset-burst") || strings.HasPrefix(op, "reset-accept") || strings.HasPrefix(op, "reset-ws") || strings.HasPrefix(op, "reset-race") {
 			return true
 		}
-		if strings.HasPrefix(op, "reset-tcp") {
+		if strings.HasPrefix(op, "reset-tcp") || strings.HasPrefix(op, "reset-wsc") {
 			return true
 		}
 	}
@@ -394,6 +503,13 @@ func runTCP(x *hx.T, ops []string) {
 		case strings.HasPrefix(op, "reset-ws"):
 			x.Emit(op, hx.Guard(func() string { return execWS(x) }))
 			x.Count("ws-close-while-writer-stalled")
+		case strings.HasPrefix(op, "reset-race"):
+			x.Emit(op, hx.Guard(func() string { return execRace(x, op) }))
+			if strings.Contains(op, "hold=1") {
+				x.Count("race:close-causes-arrive-while-Close-is-running")
+			} else {
+				x.Count("race:close-causes-released-together")
+			}
 		}
 	}
 	if ops == nil {
@@ -403,6 +519,10 @@ func runTCP(x *hx.T, ops []string) {
 		}
 		other(fmt.Sprintf("reset-accept n=%d", 150+x.R.Intn(30)))
 		other("reset-ws")
+		// simultaneous independent close causes (scaled with the tier)
+		scale := 1 + hx.EnvInt("VERIF_N", 40)/500
+		other(fmt.Sprintf("reset-race n=%d k=%d hold=1", 150*scale+x.R.Intn(50), 1+x.R.Intn(4)))
+		other(fmt.Sprintf("reset-race n=%d k=%d hold=0", 300*scale+x.R.Intn(100), 2+x.R.Intn(7)))
 	} else {
 		tcp := false
 		for _, op := range ops {
@@ -410,7 +530,7 @@ func runTCP(x *hx.T, ops []string) {
 				burst(op)
 			}
 			other(op)
-			tcp = tcp || strings.HasPrefix(op, "reset-tcp")
+			tcp = tcp || strings.HasPrefix(op, "reset-tcp") || strings.HasPrefix(op, "reset-wsc")
 		}
 		if !tcp {
 			return
@@ -424,6 +544,14 @@ func runTCP(x *hx.T, ops []string) {
 		v, _ := hx.KV(ws, "tail")
 		x.Count("tcp:tail=" + v)
 		pk, _ := hx.KV(ws, "pk")
+		if cv, _ := hx.KV(ws, "cut"); cv != "" {
+			x.Count(fmt.Sprintf("tcp:stream-pieces=%d", 1+len(strings.Split(cv, ","))))
+		} else {
+			x.Count("tcp:stream-pieces=1")
+		}
+		if strings.HasPrefix(pk, "b") || strings.Contains(pk, ",b") {
+			x.Count("tcp:body-larger-than-socket-buffer")
+		}
 		switch {
 		case pk == "":
 			x.Count("tcp:no-packets")
@@ -437,10 +565,30 @@ func runTCP(x *hx.T, ops []string) {
 			x.Count("tcp:handshake-only")
 		}
 	}
+	var we *tcpEnv
+	runWS := func(op string) {
+		if we == nil {
+			we = newAccEnv(acceptor.NewWSAcceptor("127.0.0.1:0"))
+		}
+		obs := hx.Guard(func() string { return we.execWSC(op) })
+		x.Emit(op, obs)
+		ws := hx.Words(op)
+		v, _ := hx.KV(ws, "tail")
+		x.Count("wsc:tail=" + v)
+		if f, _ := hx.KV(ws, "frag"); f == "1" {
+			x.Count("wsc:messages-fragmented")
+		}
+		if g, _ := hx.KV(ws, "glue"); g == "1" {
+			x.Count("wsc:two-packets-in-one-message")
+		}
+	}
 	if ops != nil {
 		for _, op := range ops {
 			if strings.HasPrefix(op, "reset-tcp") {
 				run(op)
+			}
+			if strings.HasPrefix(op, "reset-wsc") {
+				runWS(op)
 			}
 		}
 		return
@@ -448,5 +596,9 @@ func runTCP(x *hx.T, ops []string) {
 	n := hx.EnvInt("VERIF_N", 40)
 	for i := 0; i < n; i++ {
 		run(genTCP(x, i))
+	}
+	// the same scripts through the real WSAcceptor: one packet per websocket message
+	for i := 0; i < n/3+1; i++ {
+		runWS(genWSC(x, i))
 	}
 }
